@@ -49,7 +49,7 @@ impl Property for C05 {
         "cases: resample (by count 2..200, by spacing L/200..0.9L, by max spacing L/200..1.5L) of 2D/3D curves with total length log-uniform over ~1e-3..1e4 (scale 1e-3..1e3), open/closed, uneven vertex density; simplify with tolerance 1e-4..0.3 of the bounding box on curves and on raw point lists that double back past their chord ends; fill_gaps with max 0.05..2 of the median gap. Oracle: resampled vertices equal the harness walk of the source at the expected arc positions (so they lie on the source, span it, and are equally spaced / centred); simplified vertices are a subsequence keeping both ends and every discarded vertex is within e of the simplified polyline; gap filling keeps originals in order with collinear evenly spaced inserts and no gap above max. Non-trivial: total length outside [0.5, 2], or a closed curve, or a simplification that discards at least one vertex, or a gap fill that inserts points. Distinct = distinct canonical JSON."
     }
     fn cases(t: Tier) -> u32 {
-        t.pick(600_000, 20_000_000)
+        t.pick(2_400_000, 20_000_000)
     }
     fn expected_labels() -> Vec<&'static str> {
         vec!["resample2", "resample3", "by_count", "by_spacing", "by_max_spacing", "closed", "length<1", "length>1", "simplify2", "simplify3", "rdp_raw", "discarded>0", "fill_gaps", "inserted>0", "max_spacing>=L"]
